@@ -24,6 +24,14 @@ for p in props:
         if c.get('level_text'):
             out += ['', '*Level claimed*: ' + c['level_text']]
     out.append('')
+for title, fn in [('Generated Gallina from the Go source (go2coq) — translation validation by proof', 'design-go2coq.md'),
+                  ('The composed whole-client model (coq/Model/Client.v)', 'design-client.md')]:
+    np = os.path.join(ROOT, 'notes', fn)
+    if os.path.exists(np):
+        txt = open(np).read().strip()
+        txt = re.sub(r'^# .*\n', '', txt)
+        txt = re.sub(r'^(#+) ', lambda m: '#' * (len(m.group(1)) + 3) + ' ', txt, flags=re.M)
+        out += ['### ' + title, '', txt, '']
 out += ['---------------------------------------------------------------------------------------', '',
         '## 8. Seeded breaking changes and which checks catch them', '',
         'Each change was produced by a fresh worker that saw ONLY the property text and a scratch git',
